@@ -7,6 +7,7 @@ import (
 	"fmt"
 	"math/bits"
 	"sort"
+	"strings"
 
 	"github.com/golang/geo/s2"
 	"github.com/golang/geo/s2/s2intersect"
@@ -444,7 +445,7 @@ func (s *S) findFixed() {
 }
 
 func (s *S) findCase(fixed [][]uint64) {
-	c, g := s.c, s.g
+	g := s.g
 	n := 2 + g.n(5)
 	sel := g.n(5)
 	if fixed != nil {
@@ -504,6 +505,60 @@ func (s *S) findCase(fixed [][]uint64) {
 		}
 	}
 	roughInput := fixed == nil && g.n(3) == 0
+	s.findCheck(raw, class, roughInput)
+}
+
+// idxKey: an injective key for a sorted index list (with separators).
+func idxKey(is []int) string {
+	var b strings.Builder
+	for _, i := range is {
+		fmt.Fprintf(&b, "%d,", i)
+	}
+	return b.String()
+}
+
+// exclusiveRegions: for every index set S with |S| >= 2, the leaves covered by exactly the
+// sets in S.  One sweep over the elementary segments between all interval end points; works
+// for any number of sets (the brute force over 2^n masks does not beyond ~20).
+func exclusiveRegions(sets []lset) (map[string]lset, map[string][]int) {
+	var pts []uint64
+	for _, st := range sets {
+		for _, x := range st {
+			pts = append(pts, x.lo, x.hi)
+		}
+	}
+	sort.Slice(pts, func(i, j int) bool { return pts[i] < pts[j] })
+	raw := map[string][]iv{}
+	idx := map[string][]int{}
+	for k := 0; k+1 < len(pts); k++ {
+		lo, hi := pts[k], pts[k+1]
+		if lo == hi {
+			continue
+		}
+		var mem []int
+		for i, st := range sets {
+			if st.hasPos(lo) {
+				mem = append(mem, i)
+			}
+		}
+		if len(mem) < 2 {
+			continue
+		}
+		key := idxKey(mem)
+		raw[key] = append(raw[key], iv{lo, hi})
+		idx[key] = mem
+	}
+	out := map[string]lset{}
+	for key, ivs := range raw {
+		out[key] = mkset(ivs)
+	}
+	return out, idx
+}
+
+// findCheck runs Find on the unions with the given cells and compares with the oracle.
+func (s *S) findCheck(raw [][]uint64, class string, roughInput bool) {
+	c, g := s.c, s.g
+	n := len(raw)
 	sets := make([]lset, n)
 	in := make([]s2.CellUnion, n)
 	shown := make([][]string, n)
@@ -519,27 +574,38 @@ func (s *S) findCase(fixed [][]uint64) {
 	c.Class("find:" + class)
 	rep := map[string]interface{}{"unions": shown, "class": class}
 	s.cur = rep
-	// oracle: exact region of every index set
-	want := map[uint]lset{}
-	for mask := uint(1); mask < 1<<uint(n); mask++ {
-		if bits.OnesCount(mask) < 2 {
-			continue
-		}
-		var region, outside lset
-		first := true
-		for i := 0; i < n; i++ {
-			if mask>>uint(i)&1 == 1 {
-				if first {
-					region, first = sets[i], false
+	want, wantIdx := exclusiveRegions(sets)
+	if n <= 12 {
+		// cross-check the sweep oracle with the definition (all 2^n index sets)
+		cnt := 0
+		for mask := uint(1); mask < 1<<uint(n); mask++ {
+			if bits.OnesCount(mask) < 2 {
+				continue
+			}
+			var region, outside lset
+			first := true
+			var mem []int
+			for i := 0; i < n; i++ {
+				if mask>>uint(i)&1 == 1 {
+					mem = append(mem, i)
+					if first {
+						region, first = sets[i], false
+					} else {
+						region = region.inter(sets[i])
+					}
 				} else {
-					region = region.inter(sets[i])
+					outside = outside.union(sets[i])
 				}
-			} else {
-				outside = outside.union(sets[i])
+			}
+			if e := region.minus(outside); len(e) > 0 {
+				cnt++
+				if w, ok := want[idxKey(mem)]; !ok || !w.equal(e) {
+					panic("C11 observer: exclusiveRegions disagrees with the definition")
+				}
 			}
 		}
-		if e := region.minus(outside); len(e) > 0 {
-			want[mask] = e
+		if cnt != len(want) {
+			panic("C11 observer: exclusiveRegions reports a region the definition does not have")
 		}
 	}
 	c.Eval(keyOf("find", raw...), len(want) > 0)
@@ -553,28 +619,27 @@ func (s *S) findCase(fixed [][]uint64) {
 		return
 	}
 	s.tFind(given, got)
-	seen := map[uint]bool{}
+	seen := map[string]bool{}
 	for _, x := range got {
-		var mask uint
 		okIdx := len(x.Indices) >= 2
 		for k, i := range x.Indices {
 			if i < 0 || i >= n || (k > 0 && x.Indices[k-1] >= i) {
 				okIdx = false
 				break
 			}
-			mask |= 1 << uint(i)
 		}
 		if !okIdx {
 			c.Violate("s2intersect.Find", fmt.Sprintf("returned Indices %v are not >=2 strictly increasing valid indices", x.Indices), rep)
 			return
 		}
-		if seen[mask] {
+		key := idxKey(x.Indices)
+		if seen[key] {
 			c.Violate("s2intersect.Find", fmt.Sprintf("index set %v returned twice", x.Indices), rep)
 			return
 		}
-		seen[mask] = true
+		seen[key] = true
 		cells := fromCU(x.Intersection)
-		w, has := want[mask]
+		w, has := want[key]
 		switch {
 		case !has && len(cells) == 0:
 			// reported once per run (with the minimal fixed input of findFixed when it reproduces)
@@ -591,11 +656,129 @@ func (s *S) findCase(fixed [][]uint64) {
 			c.Violate("s2intersect.Find", fmt.Sprintf("cells returned for index set %v are not normalized", x.Indices), rep)
 		}
 	}
-	for mask := range want {
-		if !seen[mask] {
-			c.Violate("s2intersect.Find", fmt.Sprintf("index set mask %b has a non-empty exact region but is not returned", mask), rep)
+	for key := range want {
+		if !seen[key] {
+			c.Violate("s2intersect.Find", fmt.Sprintf("index set %v has a non-empty exclusive region but is not returned", wantIdx[key]), rep)
 			break
 		}
 	}
-	c.Sample(map[string]interface{}{"op": "Find", "class": class, "unions": shown, "index_sets_returned": len(got)})
+	c.Sample(map[string]interface{}{"op": "Find", "class": class, "unions": len(shown), "index_sets_returned": len(got)})
+}
+
+// parses: every way to read the digit string d as a strictly increasing list of decimal
+// numbers < n without leading zeros (the index sets whose concatenated digits are d).
+func parses(d string, n int) [][]int {
+	var out [][]int
+	var rec func(pos int, last int, acc []int)
+	rec = func(pos int, last int, acc []int) {
+		if pos == len(d) {
+			out = append(out, append([]int{}, acc...))
+			return
+		}
+		v := 0
+		for q := pos; q < len(d) && q < pos+3; q++ {
+			if q > pos && d[pos] == '0' {
+				break
+			}
+			v = v*10 + int(d[q]-'0')
+			if v >= n {
+				break
+			}
+			if v > last {
+				rec(q+1, v, append(acc, v))
+			}
+		}
+	}
+	rec(0, -1, nil)
+	return out
+}
+
+// findMany: 11..40 unions (multi-digit indices) built from disjoint "atoms": every chosen
+// index set S gets atoms covered by exactly the unions in S, so many different index sets
+// occur at once.  The chosen sets include whole families with the same concatenated decimal
+// digits ({0,1,2} / {0,12}; {1,2,3} / {12,3} / {1,23}; ...), permutations of digits, sets that
+// are prefixes/extensions of each other, and random sets; some atoms belong to one union only.
+func (s *S) findMany() {
+	g := s.g
+	n := 11 + g.n(30)
+	if g.n(3) == 0 {
+		n = 13 + g.n(12)
+	}
+	var fams [][]int
+	addFam := func(set []int) {
+		if len(set) < 1 {
+			return
+		}
+		fams = append(fams, set)
+	}
+	// digit-collision families: all parses of the digits of a few small seed sets
+	for k := 0; k < 3+g.n(4); k++ {
+		var seed []int
+		v := g.n(3)
+		for len(seed) < 2+g.n(3) && v < n {
+			seed = append(seed, v)
+			v += 1 + g.n(3)
+		}
+		d := ""
+		for _, x := range seed {
+			d += fmt.Sprint(x)
+		}
+		for _, ps := range parses(d, n) {
+			addFam(ps)
+		}
+	}
+	for _, fx := range [][]int{{0, 1, 2}, {0, 12}, {1, 2, 3}, {12, 3}, {1, 23}, {1, 11}, {1, 2}, {12, 13}, {1, 21, 3}, {1, 2, 13}} {
+		ok := true
+		for _, x := range fx {
+			if x >= n {
+				ok = false
+			}
+		}
+		if ok && g.n(4) != 0 {
+			addFam(fx)
+		}
+	}
+	// random sets, some nested in each other
+	for k := 0; k < 4+g.n(8); k++ {
+		var set []int
+		for i := 0; i < n; i++ {
+			if g.n(n) < 2+g.n(3) {
+				set = append(set, i)
+			}
+		}
+		addFam(set)
+		if len(set) > 2 && g.n(2) == 0 {
+			addFam(set[:len(set)-1])
+		}
+	}
+	// dedupe by exact set: two atoms with the same set are fine but keep the count bounded
+	if len(fams) > 60 {
+		fams = fams[:60]
+	}
+	// atoms: distinct cells three levels below a base (64 of them), in random order
+	base := g.cellUpTo(24)
+	var atoms []uint64
+	for _, a := range kids(base) {
+		for _, b := range kids(a) {
+			for _, cc := range kids(b) {
+				atoms = append(atoms, cc)
+			}
+		}
+	}
+	atoms = g.shuffle(atoms)
+	raw := make([][]uint64, n)
+	for k, set := range fams {
+		if k >= len(atoms) {
+			break
+		}
+		a := atoms[k]
+		// sometimes only part of the atom (a descendant), so regions are not whole cells
+		if g.n(4) == 0 {
+			a = g.descend(a, 1+g.n(2), g.n(3))
+		}
+		for _, i := range set {
+			raw[i] = append(raw[i], a)
+		}
+	}
+	s.findCheck(raw, "many-unions-atoms", g.n(4) == 0)
 }
